@@ -25,18 +25,22 @@ Proof.
   destruct (D x L) as (Hfs & Hmr). unfold outcome.
   destruct (m_commit1 s x nrev nfsize nmroot fault) as [[d' k]|e|] eqn:E; cbn [fst]; try exact I.
   apply ok_any_fault in E; [|apply fok_m_commit1]. unfold m_commit1 in E.
-  apply store_revise1_ok in E as (c & t' & Lc & R & ->).
+  apply store_revise1_ok in E as (c & t' & ns' & Lc & R & ->).
   destruct (inv_upd meta s I u x L) as ((c0 & Lc0 & Rc0) & Hold & Hfold & Huniq).
   rewrite Lc in Lc0; injection Lc0 as <-.
   destruct (live_rows _ _ _ _ _ (inv_t1 meta s I) Lc Rc0) as (Hrows & _ & _).
-  rewrite Hrows, <- Hold in R. apply (replay_ok_inv _ _ _ _ _ _ Hfold) in R. subst t'.
+  rewrite Hrows, <- Hold in R.
+  assert (Hle : nlen (u_old x) <= nsec (dbs s)).
+  { pose proof (total_ge _ _ _ Lc) as Hg. rewrite Hrows, <- Hold, nlen_tbl_of in Hg.
+    rewrite (inv_nsec meta s I). lia. }
+  apply (replay_ok_inv _ _ _ _ _ _ _ _ Hfold Hle) in R as [-> ->].
   set (cid := u_cid x) in *. set (l := u_roots x) in *.
   set (c' := with_rows (with_rev c nrev nfsize nmroot) (tbl_of l)).
   match goal with |- Inv ?st => set (s' := st) end.
   assert (G : forall y, cache_get s' y = if y =? cid then l else cache_get s y)
     by (apply cache_get_upd; reflexivity).
   assert (Hc2 : alookup cid (t2 (dbs s)) = None) by (apply (inv_disj meta s I); congruence).
-  constructor; cbn [s' dbs set_dbs set_cache set_upds set_t1 t1 t2 cache upds].
+  constructor; cbn [s' dbs set_dbs set_cache set_upds set_t1 set_nsec t1 t2 nsec cache upds].
   - eapply tab_ok_ext; [|eapply (tab_ok_update meta true (cache_get s) _ cid c c' l);
       [exact (inv_t1 meta s I)|exact Lc|exact Rc0|exact Rc0|reflexivity|]].
     + intros y cy _ _. unfold gset. now rewrite G.
@@ -49,7 +53,7 @@ Proof.
     + now apply (inv_disj meta s I).
   - intros y Hy. rewrite alookup_aset in Hy. rewrite alookup_aset.
     destruct (y =? cid) eqn:Ey; [left; discriminate|]. now apply (inv_cdom meta s I).
-  - intros u' x' L'. cbn [s' upds set_upds dbs set_dbs set_cache set_t1 t1] in *.
+  - intros u' x' L'. cbn [s' upds set_upds dbs set_dbs set_cache set_t1 set_nsec t1] in *.
     rewrite alookup_aset in L'. rewrite G.
     destruct (u' =? u) eqn:Eu.
     + apply N.eqb_eq in Eu; subst u'. injection L' as <-. cbn [u_cid u_old u_acts u_roots].
@@ -67,6 +71,9 @@ Proof.
         destruct (u2 =? u) eqn:E2; [|now apply (G4 u2 x2)].
         injection L2 as <-. cbn [u_cid] in Ec. congruence.
   - apply NoDup_aset. exact (inv_unodup meta s I).
+  - pose proof (total_aset_some cid c' c (t1 (dbs s)) Lc) as Ht.
+    subst c'. cbn [rows with_rows] in Ht. rewrite Hrows, !nlen_tbl_of in Ht.
+    fold l. rewrite <- Hold in Ht. rewrite (inv_nsec meta s I) in *. lia.
 Qed.
 
 Lemma inv_revise2 s id c newroots mnew rsig hsig fault :
@@ -89,11 +96,15 @@ Proof.
   destruct (negb rsig); [discriminate|]. destruct (negb hsig); [discriminate|].
   destruct (negb (r2_mroot c =? meta newroots)) eqn:Emr; [discriminate|].
   cbn [lift] in E.
-  apply store_revise2_ok in E as (e' & t' & Le' & R & ->).
+  apply store_revise2_ok in E as (e' & t' & ns' & Le' & R & ->).
   rewrite Le in Le'; injection Le' as <-.
   assert (Re : rto e = None) by (destruct (rto e); [discriminate|reflexivity]).
   destruct (live_rows _ _ _ _ _ (inv_t2 meta s I) Le Re) as (Hrows & _ & _).
-  rewrite Hrows in R. apply v2_diff_ok_inv in R as [-> _].
+  rewrite Hrows in R.
+  assert (Hle : nlen (cache_get s id) <= nsec (dbs s)).
+  { pose proof (total_ge _ _ _ Le) as Hg. rewrite Hrows, nlen_tbl_of in Hg.
+    rewrite (inv_nsec meta s I). lia. }
+  apply (v2_diff_ok_inv _ _ _ _ _ _ _ Hle) in R as (-> & -> & _).
   set (e' := with_rows (with_rv2 e c) (tbl_of newroots)).
   match goal with |- Inv ?st => set (s' := st) end.
   assert (G : forall y, cache_get s' y = if y =? id then newroots else cache_get s y)
@@ -101,7 +112,7 @@ Proof.
   assert (Hc1 : alookup id (t1 (dbs s)) = None).
   { destruct (alookup id (t1 (dbs s))) eqn:L1; [|reflexivity].
     rewrite (inv_disj meta s I id) in Le by congruence. discriminate. }
-  constructor; cbn [s' dbs set_dbs set_cache set_t2 t1 t2 cache upds].
+  constructor; cbn [s' dbs set_dbs set_cache set_t2 set_nsec t1 t2 nsec cache upds].
   - eapply tab_ok_ext; [|exact (inv_t1 meta s I)].
     intros y cy Ly _. rewrite G. destruct (y =? id) eqn:Ey; [|reflexivity].
     apply N.eqb_eq in Ey; subst y. congruence.
@@ -114,11 +125,14 @@ Proof.
     + now apply (inv_disj meta s I).
   - intros y Hy. rewrite alookup_aset in Hy. rewrite alookup_aset.
     destruct (y =? id) eqn:Ey; [right; discriminate|]. now apply (inv_cdom meta s I).
-  - intros u x L. cbn [s' upds dbs set_dbs set_cache set_t2 t1] in *. rewrite G.
+  - intros u x L. cbn [s' upds dbs set_dbs set_cache set_t2 set_nsec t1] in *. rewrite G.
     destruct (inv_upd meta s I u x L) as ((c1 & Lc1 & Rc1) & G2 & G3 & G4).
     assert (Hne : u_cid x <> id) by congruence.
     replace (u_cid x =? id) with false by lia. repeat split; auto. now exists c1.
   - exact (inv_unodup meta s I).
+  - pose proof (total_aset_some id e' e (t2 (dbs s)) Le) as Ht.
+    subst e'. cbn [rows with_rows] in Ht. rewrite Hrows, !nlen_tbl_of in Ht.
+    rewrite (inv_nsec meta s I) in *. lia.
 Qed.
 
 (* both renewals produce the same table shape *)
@@ -159,7 +173,7 @@ Proof.
               {| rev := nrev; fsize := nfsize; cap := 0; mroot := nmroot; wstart := nws; expi := 0;
                  rk := 0; hk := 0; rto := None; rfrom := None; rows := [] |} Hne Ln1) as [LK ND].
   fold t' in LK, ND.
-  constructor; cbn [s' dbs set_dbs set_cache set_t1 t1 t2 cache upds].
+  constructor; cbn [s' dbs set_dbs set_cache set_t1 t1 t2 nsec cache upds].
   - eapply tab_ok_ext; [|eapply (inv_renew_tables true s (t1 (dbs s)) old new c
         (with_to (with_rev c crev cfsize cmroot) (Some new))
         {| rev := nrev; fsize := nfsize; cap := 0; mroot := nmroot; wstart := nws; expi := 0;
@@ -184,6 +198,8 @@ Proof.
     exists c1. split; [|exact Rc1]. rewrite LK.
     replace (u_cid x =? old) with false by lia. replace (u_cid x =? new) with false by lia. exact Lc1.
   - exact (inv_unodup meta s I).
+  - cbn [nsec set_t1]. subst t'. rewrite (total_renew _ old new c) by (auto; reflexivity).
+    exact (inv_nsec meta s I).
 Qed.
 
 Lemma inv_renew2 s old new c mold wf fault :
@@ -217,7 +233,7 @@ Proof.
   match goal with s' := set_cache (set_dbs s (set_t2 _ ?tt)) _ |- _ => set (t' := tt) in * end.
   destruct (renew_lookup (t2 (dbs s)) old new (with_to e (Some new)) (ct_of_rv2 c) Hne Ln2) as [LK ND].
   fold t' in LK, ND.
-  constructor; cbn [s' dbs set_dbs set_cache set_t2 t1 t2 cache upds].
+  constructor; cbn [s' dbs set_dbs set_cache set_t2 t1 t2 nsec cache upds].
   - eapply tab_ok_ext; [|exact (inv_t1 meta s I)].
     intros y cy Ly _. rewrite G. destruct (y =? new) eqn:Ey; [|reflexivity].
     apply N.eqb_eq in Ey; subst y. congruence.
@@ -237,6 +253,8 @@ Proof.
     assert (Hn2 : u_cid x <> new) by congruence.
     replace (u_cid x =? new) with false by lia. repeat split; auto. now exists c1.
   - exact (inv_unodup meta s I).
+  - cbn [nsec set_t2]. subst t'. rewrite (total_renew _ old new e) by (auto; reflexivity).
+    exact (inv_nsec meta s I).
 Qed.
 
 Lemma inv_restart s : Inv s -> Inv (fst (step s Restart)).
@@ -262,6 +280,7 @@ Proof.
     destruct (alookup y (t1 (dbs s))) as [c1|] eqn:L1; [left; discriminate|]. now cbn in Hy.
   - intros u x L. discriminate.
   - constructor.
+  - exact (inv_nsec meta s I).
 Qed.
 
 (** * every disciplined step, every disciplined history *)
@@ -289,6 +308,7 @@ Proof.
   - exact I.
   - exact I.
   - exact I.
+  - exact I.
   - now apply inv_restart.
   - destruct D.
   - destruct D.
@@ -303,6 +323,7 @@ Proof.
   - intros id H; now elim H.
   - intros u x L; discriminate.
   - constructor.
+  - reflexivity.
 Qed.
 
 Theorem inv_runs : forall ops s, Inv s -> disc_run meta s ops -> Inv (runs s ops).
